@@ -23,9 +23,24 @@ Bounded tier.  Two kinds of cases (inputs from gen/gr_resolver_inputs.py):
       dumps must be equal across the seeds and equal to the digest computed in the (long-lived) worker process, which
       also exposes state carried over from earlier calls (mutable default arguments).
 
-Scope decisions: no `!` (shared atoms void the block clause by the statement itself); base graphs for `from_graph` keep
-keys 0..n-1 in insertion order ('base-graph order' is then unambiguous; other keys are exercised by C02); permuting
-definitions never changes which definition a name refers to (names are unique inside a block).
+  (g) (added) `from_graph` with the SAME base graph (keys 0..n-1, same names, same edges) whose nodes were inserted in
+      another order (reversed, one seeded shuffle): at every level the numbering clause (a) holds with blocks in ascending
+      coarse-KEY order, and the fine graphs equal those of `from_string` (nodes compared by key with all attributes, edges
+      with their order; the record of which descriptor is named first on an edge is not compared).  Only for inputs whose
+      bonds are determined by the labels (design 'unique' under the label-sensitive convention, layered strings built from
+      it): with interchangeable descriptors the pairing may follow the search order.  For shared-atom designs only the
+      numbering clause is demanded under another insertion order (which of two merged atoms survives follows the visits).
+Shared atoms (`!`, added): inputs from gen shared_cases / layered_shared_cases (two-level coarse and all-atom, `!` on an
+      intermediate coarse level of a three-level string) and typed-in strings (SQUASH_HAND).  The block clause is void by the
+      statement itself, what remains of (a) and is demanded at EVERY level, coarse levels included: keys are exactly 0..n-1;
+      the atoms owned by one coarse node only are in ascending coarse-key order; an atom shared by coarse nodes S has a key
+      above every exclusively owned atom of a coarse node < min(S) and below every one of a coarse node > max(S).  Clause
+      (b) is not demanded of these inputs (a shared atom is named once per coarse node).  No shared aromatic atoms (known
+      finding of C10).  Clauses (c)-(g) as for all other inputs.
+
+Scope decisions: base graphs for `from_graph` keep the keys 0..n-1 of the string ('base-graph order' = ascending key; other
+keys are exercised by C02); permuting definitions never changes which definition a name refers to (names are unique inside
+a block).
 """
 import hashlib
 import itertools
@@ -35,6 +50,7 @@ import os
 import random
 import subprocess
 import sys
+import networkx as nx
 from vf.bounded import Outcome, Failure
 from vf.util import canonical_dump
 from gen import gr_resolver_inputs as gr
@@ -49,9 +65,13 @@ HASHSEEDS = ('0', '1', '4242')
 BOUNDS = {
     'quick': {'strings': 'every fourth two-level case (graphs <= 4 nodes x orders x designs x all-atom/coarse x legacy, virtual nodes, multiplied units), '
                          'all typed-in strings, every second layered string', 'permutations': 'all for <= 3 definitions per block, reversal + 7 seeded above',
-              'constructors': 4, 'shared_library_sequence': 3, 'hashseed_batches': 3, 'batch_size': 25, 'hashseeds': list(HASHSEEDS)},
+              'constructors': 4, 'shared_library_sequence': 3, 'hashseed_batches': 3, 'batch_size': 25, 'hashseeds': list(HASHSEEDS),
+              'shared_atoms': 'typed-in strings, every fourth coarse and every tenth all-atom shared-atom design, every fifth string with `!` on two levels',
+              'base_graph_insertion_orders': 'reversed + 1 seeded shuffle'},
     'thorough': {'strings': 'every fourth two-level case (graphs <= 5 nodes, 2 repeats per cell, 4000 random trees), all typed-in strings, every second layered case', 'permutations': 'all for <= 4 definitions per block, reversal + 7 seeded above',
-                 'constructors': 4, 'shared_library_sequence': 3, 'hashseed_batches': 30, 'batch_size': 25, 'hashseeds': list(HASHSEEDS)},
+                 'constructors': 4, 'shared_library_sequence': 3, 'hashseed_batches': 30, 'batch_size': 25, 'hashseeds': list(HASHSEEDS),
+                 'shared_atoms': 'typed-in strings, every second shared-atom design, every fourth string with `!` on two levels',
+                 'base_graph_insertion_orders': 'reversed + 1 seeded shuffle'},
 }
 EXHAUSTIVE = {'quick': False, 'thorough': False}
 RULE = ('single: one string per case, all clauses (a)-(f); non-trivial when the fine graph has >= 2 coarse nodes owning atoms and the case '
@@ -80,7 +100,9 @@ def cases(tier, seed):
         pool.append(c)
         if i % 2 == 0 or 'hand' in c['tags']:
             singles.append(dict(c, kind='single', perm_full=pf))
-    singles.sort(key=lambda c: 0 if c['design'] == 'hand' else 1)      # stable: typed-in strings first
+    singles.extend(dict(c, kind='single', perm_full=pf) for c in squash_cases(tier))
+    # stable: typed-in strings first, then the inputs with shared atoms (few; the only ones whose merge numbering has holes)
+    singles.sort(key=lambda c: 0 if c['design'] == 'hand' else 1 if 'shared' in c['tags'] else 2)
     rng = random.Random(99)
     rng.shuffle(pool)
     nb = 3 if tier == 'quick' else 30
@@ -95,17 +117,120 @@ def cases(tier, seed):
     yield from batches
 
 
+# ------------------------------------------------------------------------------------------- shared atoms
+# (id, string, all_atom): `!` on a coarse level; three-level strings continue the coarse level to atoms, so the keys of
+# the coarse level are the coarse-node ids ('fragid') of the next one.  No aromatic atoms.
+SQUASH_HAND = [
+    ('squash/cg-chain', '{[#A][#B][#C]}.{#A=[#a][#b][!],#B=[!][#b][#c][>],#C=[<][#d][#e]}', False),
+    ('squash/cg-chain-aa', '{[#A][#B][#C]}.{#A=[#a][#b][!],#B=[!][#b][#c][>],#C=[<][#d][#e]}.'
+     '{#a=CC[$],#b=[$]O[$],#c=[$]CC[$],#d=[$]CO[$],#e=[$]N}', True),
+    ('squash/cg-first-listed-last', '{[#C][#B][#A]}.{#A=[#a][#b][!x],#B=[#b][!x][#c][!y],#C=[!y][#c][#e]}', False),
+    ('squash/cg-two', '{[#A][#B][#C]}.{#A=[#a][#b][!x],#B=[#b][!x][#c][!y],#C=[!y][#c][#e]}', False),
+    ('squash/cg-two-cg', '{[#A][#B][#C]}.{#A=[#a][#b][!x],#B=[#b][!x][#c][!y],#C=[!y][#c][#e]}.'
+     '{#a=[#a1][#a2][$],#b=[$][#b1][$],#c=[$][#c1][#c2][$],#e=[$][#e1]}', False),
+    ('squash/cg-hub', '{[#H]([#A])[#B]}.{#H=[#s][!p][!q][#h1][#h2],#A=[#a1][#s][!p],#B=[#s][!q][#b1]}', False),
+    ('squash/cg-hub-aa', '{[#A][#H][#B]}.{#H=[#s][!p][!q][#h1][>],#A=[#a1][#s][!p],#B=[#s][!q][#b1]}.'
+     '{#s=[$]C([$])[$],#h1=[$]CO,#a1=N[$],#b1=[$]CF}', True),
+    ('squash/cg-ring', '{[#A]1[#B][#C]1}.{#A=[!ca][#s][#a][#s][!ab],#B=[!ab][#s][#b][#s][!bc],#C=[!bc][#s][#c][#s][!ca]}', False),
+]
+
+
+def squash_cases(tier):
+    for cid, s, aa in SQUASH_HAND:
+        i = s.index('}.{')
+        yield {'id': 'hand/' + cid, 'base': None, 'base_str': s[:i + 1], 'blocks': gr._split_blocks(s[i + 2:]), 'all_atom': aa,
+               'legacy': True, 'valid': True, 'design': 'hand', 'bonds': None, 'tags': ['shared', 'hand']}
+    two = list(getattr(gr, 'shared_cases', lambda t: [])(tier))
+    cg = [c for c in two if not c['all_atom']]
+    aa = [c for c in two if c['all_atom']]
+    lay = list(getattr(gr, 'layered_shared_cases', lambda t: [])(tier))
+    if tier == 'quick':
+        yield from cg[::4]
+        yield from lay[1::5]
+        yield from aa[::10]
+    else:
+        yield from cg[::2]
+        yield from lay[::4]
+        yield from aa[1::2]
+
+
+def check_numbering_shared(coarse, fine):
+    """What the statement demands of the keys when atoms are shared (see the module docstring)."""
+    n = fine.number_of_nodes()
+    if set(fine.nodes) != set(range(n)):
+        return [('keys-not-0..n-1', 'node keys %s' % sorted(fine.nodes, key=repr)[:60])]
+    fid = {}
+    for m in fine.nodes:
+        f = fine.nodes[m].get('fragid')
+        if not (isinstance(f, list) and f and all(isinstance(k, int) for k in f)):
+            return []          # membership records are C02's subject
+        fid[m] = f
+    excl = [m for m in sorted(fid) if len(set(fid[m])) == 1]
+    for a, b in zip(excl, excl[1:]):
+        if fid[a][0] > fid[b][0]:
+            return [('keys-not-ordered-by-coarse-node', 'node %d belongs to coarse node %d, the later node %d to coarse node %d' % (
+                a, fid[a][0], b, fid[b][0]))]
+    for m in sorted(fid):
+        if len(set(fid[m])) < 2:
+            continue
+        lo, hi = min(fid[m]), max(fid[m])
+        for e in excl:
+            if (fid[e][0] < lo and e > m) or (fid[e][0] > hi and e < m):
+                return [('shared-atom-outside-its-coarse-nodes', 'node %d is shared by coarse nodes %s but node %d of coarse node %d is on the other side of it' % (
+                    m, sorted(fid[m]), e, fid[e][0]))]
+    return []
+
+
+def _is_shared(case):
+    return 'shared' in (case.get('tags') or [])
+
+
+def _bonds_determined(case):
+    """The labels decide which descriptors pair up, whatever the order in which the fragments are visited."""
+    tags = case.get('tags') or []
+    if not case.get('base') or not case.get('legacy') or 'repeated-names' in tags:
+        return False
+    return (case['design'] == 'unique' and case.get('bonds') is not None) or case['design'] in ('layered', 'shared')
+
+
+def _by_key_dump(g):
+    """Nodes in key order with all attributes, edges with their order only."""
+    h = nx.Graph()
+    for k in sorted(g.nodes, key=repr):
+        h.add_node(k, **g.nodes[k])
+    for u, v, d in g.edges(data=True):
+        h.add_edge(u, v, order=d.get('order'))
+    return canonical_dump(h)
+
+
+def insertion_orders(n, rng):
+    out = [('reversed', list(range(n))[::-1])]
+    if n >= 3:
+        p = list(range(n))
+        for _ in range(5):
+            rng.shuffle(p)
+            if p != list(range(n)) and p != out[0][1]:
+                out.append(('shuffled', list(p)))
+                break
+    return out
+
+
 # ------------------------------------------------------------------------------------------- helpers
-def _all_dumps(resolver, numbering=None):
+def _all_dumps(resolver, numbering=None, shared=False, by_key=None):
     """Dumps are taken when a pair is returned: the next step turns the fine graph into its coarse graph in place.
-    numbering: optional list collecting (step, coarse-node count owning atoms, violations of (a)/(b), fine dump)."""
+    numbering: optional list collecting (step, coarse-node count owning atoms, violations of (a)/(b), fine dump);
+    shared: the input has shared atoms (numbering clause for shared atoms); by_key: optional list collecting the fine
+    graphs dumped in key order."""
     out = []
     nlev = resolver.resolutions
     for step, (coarse, fine) in enumerate(resolver.resolve_iter()):
         out.append(rs.pair_dump(coarse, fine))
         if numbering is not None:
-            numbering.append((step, sum(1 for k in coarse.nodes if rs.members(fine, k)),
-                              rs.check_numbering(coarse, fine, resolver.last_all_atom and step == nlev - 1), canonical_dump(fine)))
+            probs = check_numbering_shared(coarse, fine) if shared else \
+                rs.check_numbering(coarse, fine, resolver.last_all_atom and step == nlev - 1)
+            numbering.append((step, sum(1 for k in coarse.nodes if rs.members(fine, k)), probs, canonical_dump(fine)))
+        if by_key is not None:
+            by_key.append(_by_key_dump(fine))
     return out
 
 
@@ -195,8 +320,10 @@ def check_case(case):
             fails.append(Failure('MoleculeResolver', clause, '%s (all_atom=%s legacy=%s): %s' % (gr.full_string(case), case['all_atom'], case['legacy'], detail),
                                  classify(case, clause)))
     numbering = []
+    shared = _is_shared(case)
+    ref_by_key = []
     try:
-        ref = _all_dumps(gr.make_resolver(cgsmiles, case), numbering)
+        ref = _all_dumps(gr.make_resolver(cgsmiles, case), numbering, shared, ref_by_key)
     except Exception as e:   # noqa
         if not case.get('valid'):
             return Outcome(key, False, [], skipped=True, note='%s: %s' % (type(e).__name__, e))
@@ -243,6 +370,21 @@ def check_case(case):
             got = _fine_dumps(gr.make_resolver(cgsmiles, case, 'graph-own'))
             if got != [d for _, _, _, d in numbering]:
                 fail('constructor-graph-own', 'from_graph with a directly built base graph gives different fine graphs')
+        # (g)
+        if _bonds_determined(case) and len(case['base']['nodes']) >= 2:
+            nb = len(case['base']['nodes'])
+            for oname, ins in insertion_orders(nb, rng):
+                exercised += 1
+                got_num, got_by_key = [], []
+                _all_dumps(gr.make_resolver(cgsmiles, case, 'graph-own', {'keys': list(range(nb)), 'insertion': ins}), got_num, shared, got_by_key)
+                for step, _, probs, _ in got_num:
+                    for clause, detail in probs:
+                        fail('base-graph-insertion-order/' + clause, 'from_graph, base-graph nodes inserted in the order %s, step %d: %s' % (ins, step, detail))
+                # with shared atoms the order of the visits decides which of two merged atoms survives (its attributes,
+                # the order of its membership list): only the numbering clause is demanded then
+                if not shared and got_by_key != ref_by_key:
+                    step = next((i for i, (a, b) in enumerate(zip(got_by_key, ref_by_key)) if a != b), min(len(got_by_key), len(ref_by_key)))
+                    fail('constructor-graph-insertion-order', 'from_graph with the same base graph, nodes inserted in the order %s, differs from from_string at step %d' % (ins, step))
         # (f)
         lib = gr.read_templates(cgsmiles, case)
         snap = _library_snapshot(lib)
